@@ -14,7 +14,7 @@ CONSTANTS
   Deterministic = FALSE
 VIEW TraceView
 CONSTRAINT HighWater
-INVARIANTS TypeOK HistoryIsRetainedSuffix
-PROPERTIES T_OffsetsDense T_EpochStable T_ClearKeepsPosition T_SuppressedChangesNothing
+INVARIANTS TypeOK
+PROPERTIES HistoryIsRetainedSuffix T_OffsetsDense T_EpochStable T_ClearKeepsPosition T_SuppressedChangesNothing
 POSTCONDITION TraceAccepted
 CHECK_DEADLOCK FALSE
